@@ -126,7 +126,7 @@ Proof. vm_compute. reflexivity. Qed.
 (** the hand-modelled switch arms are the ones in the source (fingerprints of
     the arm bodies; a changed arm re-opens this obligation) *)
 Definition hand_modelled_arms : list (Z * string) :=
-  [(86, "1db5d7c8db1b8e77"); (c_OPT_HELP, "6b5638304214c766"); (c_OPT_SENDER, "3427b988d9400ca9"); (c_OPT_DAEMON, "a88638bb466930ec");
+  [(86, "1db5d7c8db1b8e77"); (c_OPT_HELP, "5eaf9b46ae93d339"); (c_OPT_SENDER, "3427b988d9400ca9"); (c_OPT_DAEMON, "91416278d1acecf0");
    (c_OPT_FILTER, "07b85f581477f558"); (c_OPT_EXCLUDE, "05671dcdc5cedd46"); (c_OPT_INCLUDE, "96a06f65f5ffcbe9")]%Z.
 Lemma arms_as_modelled :
   forallb (fun p : Z * string => match find_arm (fst p) opt_arms with
